@@ -410,7 +410,7 @@ func TestVerifC08Collect(t *testing.T) {
 	// pattern alphabet: a literal name with a blank inside, one with `*`, one
 	// with `**` and a '#' that does not start the line, one with a '@' inside
 	alphabet := []string{"Suite A/x y", "s/*/b", "**/c#d"}
-	styles := []int{0, 2, 3}
+	styles := []int{0, 2, 3, 5}
 	if rep.Thorough() {
 		alphabet = append(alphabet, "a@b/**/*")
 		styles = []int{0, 1, 2, 3, 4, 5}
